@@ -7,6 +7,7 @@ package main
 
 import (
 	"fmt"
+	"sort"
 	"strconv"
 )
 
@@ -69,6 +70,36 @@ func init() {
 				lit("{")
 				for _, e := range x.f {
 					enc(e, d+1)
+				}
+				lit("}")
+			case MapV:
+				// a map is marshalled with its keys sorted: equal maps give equal bytes whatever the insertion order
+				// (that is what the real encoder does, and what makes a map-valued key component order-blind)
+				if x.obj == 0 {
+					lit("n")
+					return
+				}
+				mo, ok := st.get(x.obj).(*MapObj)
+				if !ok {
+					unsupported("json.Marshal model: map object")
+				}
+				type kv struct {
+					k string
+					v Value
+				}
+				var kvs []kv
+				for i, k := range mo.keys {
+					ks, ok := k.(StrV)
+					if !ok || !ks.isConcrete() {
+						unsupported("json.Marshal model: map key that is not a concrete string")
+					}
+					kvs = append(kvs, kv{ks.s, mo.vals[i]})
+				}
+				sort.Slice(kvs, func(i, j int) bool { return kvs[i].k < kvs[j].k })
+				lit("m" + strconv.Itoa(len(kvs)) + ":")
+				for _, e := range kvs {
+					lit("s" + strconv.Itoa(len(e.k)) + ":" + e.k)
+					enc(e.v, d+1)
 				}
 				lit("}")
 			case PtrV:
